@@ -79,7 +79,7 @@ if os.environ.get('VERIF_DUMP_SMT'):
                     site = '%s_%d' % (os.path.basename(fr.filename).replace('.py', ''), fr.lineno)
                     break
             n = _seen_sites.get(site, 0)
-            if site and n < 3 and len(_seen_sites) < 200:
+            if site and n < 8 and len(_seen_sites) < 200:
                 _seen_sites[site] = n + 1
                 s2 = _z3.Solver()
                 s2.add(self.assertions())
